@@ -3544,14 +3544,17 @@ in_float_range(PyObject *value, PyObject *range_info)
         return -1;
     }
 
+    /* The comparisons are written so that a NaN value (for which every
+       ordered comparison is false) is out of range, as it is for the
+       Python-level validator. */
     if (low != Py_None) {
         if ((exclude_mask & 1) != 0) {
-            if (PyFloat_AS_DOUBLE(value) <= PyFloat_AS_DOUBLE(low)) {
+            if (!(PyFloat_AS_DOUBLE(value) > PyFloat_AS_DOUBLE(low))) {
                 return 0;
             }
         }
         else {
-            if (PyFloat_AS_DOUBLE(value) < PyFloat_AS_DOUBLE(low)) {
+            if (!(PyFloat_AS_DOUBLE(value) >= PyFloat_AS_DOUBLE(low))) {
                 return 0;
             }
         }
@@ -3559,12 +3562,12 @@ in_float_range(PyObject *value, PyObject *range_info)
 
     if (high != Py_None) {
         if ((exclude_mask & 2) != 0) {
-            if (PyFloat_AS_DOUBLE(value) >= PyFloat_AS_DOUBLE(high)) {
+            if (!(PyFloat_AS_DOUBLE(value) < PyFloat_AS_DOUBLE(high))) {
                 return 0;
             }
         }
         else {
-            if (PyFloat_AS_DOUBLE(value) > PyFloat_AS_DOUBLE(high)) {
+            if (!(PyFloat_AS_DOUBLE(value) <= PyFloat_AS_DOUBLE(high))) {
                 return 0;
             }
         }
